@@ -326,6 +326,26 @@ type Exec struct {
 	Shapes map[string]bool
 	// Hooks
 	AfterReopen func(x *Exec) string // extra checks right after a clean restart
+	// AltFS makes every clean restart switch between fs.OS and fs.OSMMap on the same directory.
+	AltFS bool
+	// IdleCycles makes every clean restart do an additional Open+Close without writes and compare the
+	// segment files before and after.
+	IdleCycles bool
+}
+
+// segmentFiles returns name -> bytes for the segment files of the database directory.
+func (x *Exec) segmentFiles() map[string]string {
+	out := map[string]string{}
+	files, err := x.Env.ReadDirFiles(x.Env.Dir)
+	if err != nil {
+		return out
+	}
+	for n, d := range files {
+		if len(n) > 4 && n[len(n)-4:] == ".psg" {
+			out[n] = string(d)
+		}
+	}
+	return out
 }
 
 // NewExec opens the database.
@@ -453,12 +473,55 @@ func (x *Exec) Do(op Op) (sig, detail string) {
 		if err := x.DB.Close(); err != nil {
 			return "close-error", fmt.Sprintf("op %d close: %v", idx, err)
 		}
+		x.DB = nil
+		if names := x.Env.List(x.Env.Dir); names["lock"] != 0 || hasKey(names, "lock") {
+			return "close-left-lock", fmt.Sprintf("op %d: lock file still present after Close returned nil", idx)
+		}
+		if x.AltFS && (x.Env.Kind == FSOS || x.Env.Kind == FSOSMMap) {
+			if x.Env.Kind == FSOS {
+				x.Env = x.Env.WithKind(FSOSMMap)
+			} else {
+				x.Env = x.Env.WithKind(FSOS)
+			}
+			if x.C != nil {
+				x.C.Stat("fs_switches", 1)
+			}
+		}
 		rec := Recoveries()
+		if x.IdleCycles {
+			before := x.segmentFiles()
+			db, err := x.Env.Open(x.Cfg)
+			if err != nil {
+				return "reopen-error", fmt.Sprintf("op %d open after clean close: %v", idx, err)
+			}
+			cnt := int(db.Count())
+			if err := db.Close(); err != nil {
+				return "close-error", fmt.Sprintf("op %d close of idle session: %v", idx, err)
+			}
+			if cnt != len(x.Ref) {
+				return "reopen-mismatch", fmt.Sprintf("op %d: Count()=%d after clean restart, reference has %d", idx, cnt, len(x.Ref))
+			}
+			after := x.segmentFiles()
+			if len(before) != len(after) {
+				return "idle-cycle-changed-files", fmt.Sprintf("op %d: Open+Close without writes changed the set of segment files: %d -> %d", idx, len(before), len(after))
+			}
+			for n, d := range before {
+				if after[n] != d {
+					return "idle-cycle-changed-files", fmt.Sprintf("op %d: Open+Close without writes changed segment %s (len %d -> %d)", idx, n, len(d), len(after[n]))
+				}
+			}
+			if x.C != nil {
+				x.C.Stat("idle_cycles", 1)
+			}
+		}
 		db, err := x.Env.Open(x.Cfg)
 		if err != nil {
 			return "reopen-error", fmt.Sprintf("op %d open after clean close: %v", idx, err)
 		}
 		x.DB = db
+		if x.C != nil {
+			x.C.Stat("clean_restarts", 1)
+		}
 		if Recoveries() != rec {
 			return "reopen-recovered", fmt.Sprintf("op %d: open after a clean close ran recovery", idx)
 		}
@@ -478,6 +541,8 @@ func (x *Exec) Do(op Op) (sig, detail string) {
 	}
 	return "", ""
 }
+
+func hasKey(m map[string]int64, k string) bool { _, ok := m[k]; return ok }
 
 // OpsToStrings renders ops for samples and replay data.
 func OpsToStrings(ops []Op, max int) []string {
